@@ -1,6 +1,7 @@
 """C01 -- the Kemeny score equals the pairwise-penalty definition; incomplete candidates are refused."""
 from .. import core, grids
 from ..framework import Model, Stage
+from . import algo_common as ac
 
 PID = "C01"
 RULE = ("case = (dataset, candidate ranking) scored by the library under every scheme of the list; "
@@ -221,6 +222,8 @@ def stages(tier, rng, only=None):
                          _nontrivial, _init, aux=aux))
         out.append(Stage("larger", "Trace_Score", run_case, lambda: _larger_cases(rng, 3000), _nontrivial, _init,
                          aux=aux))
+    # a thousand elements and more (Trace_Wide): the definition summed by folds
+    out.append(ac.wide_stage("wide_1000", PID, lambda: ac.wide_score_cases(rng, 4 if tier == "quick" else 40)))
     if only:
         out = [s for s in out if s.name == only]
     return out
